@@ -12,6 +12,16 @@ BOUNDARY = [0, 1, -1, 2, -2, 7, -7, 255, 256, 2**31 - 1, 2**31, 2**32 - 1, 2**32
             2**63 - 1, -2**63, -2**63 + 1, 65535, 65536]
 
 
+def mentions(node, name):
+    if isinstance(node, dict):
+        if node.get("k") in ("var", "call") and node.get("s") == name:
+            return True
+        return any(mentions(v, name) for v in node.values())
+    if isinstance(node, list):
+        return any(mentions(v, name) for v in node)
+    return False
+
+
 class Scope:
     def __init__(self, parent=None):
         self.vars = []          # (name, type, mutable)
@@ -43,12 +53,12 @@ class Gen:
         self.n += 1
         return "%s%d" % (p, self.n)
 
-    def small(self):
+    def small(self, big=False):
         r = self.r
         c = r.random()
-        if c < 0.7: return r.randint(-9, 20)
-        if c < 0.85: return r.choice(BOUNDARY)
-        return r.randint(-1000, 1000)
+        if big and c < 0.5: return r.choice(BOUNDARY)
+        if c < 0.8: return r.randint(0, 20)
+        return r.randint(-9, 1000)
 
     # ------------------------------------------------------------ expressions
     def expr(self, ty, sc, d):
@@ -68,7 +78,9 @@ class Gen:
                 dv = r.choice([1, 2, 3, -2, 7, -1, 10])
                 return Bin(op, self.expr("int", sc, d - 1), I(dv))
             if c < 0.50: return Call("t", self.expr("int", sc, d - 1))
-            if c < 0.55: return Un("-", self.expr("int", sc, d - 1))
+            if c < 0.55:
+                ivs = [v for v in sc.all() if v[1] == "int"]
+                if ivs: return Un("-", V(r.choice(ivs)[0]))
             if c < 0.62:
                 fs = [f for f in self.funcs if f[2] == "int"]
                 if fs:
@@ -80,7 +92,6 @@ class Gen:
                 if ps: return Field(V(r.choice(ps)[0]), r.choice(["x", "y"]))
                 rs = [v for v in sc.all() if v[1] == "Rec"]
                 if rs: return Field(Field(V(r.choice(rs)[0]), "p"), r.choice(["x", "y"]))
-            if c < 0.78: return Call("str_length", self.expr("string", sc, d - 1))
             if c < 0.84:
                 arrs = [v for v in sc.all() if v[1] == "array<int>"]
                 if arrs:
@@ -89,17 +100,21 @@ class Gen:
             if c < 0.88:
                 ts = [v for v in sc.all() if v[1] == "(int, string)"]
                 if ts: return TIdx(V(r.choice(ts)[0]), 0)
-            if c < 0.92: return Enum("Color." + r.choice(["Red", "Green", "Blue"]))
             return self.lit(ty, sc, d)
         if ty == "bool":
             c = r.random()
             if c < 0.35:
-                return Bin(r.choice(["<", "<=", ">", ">=", "==", "!="]), self.expr("int", sc, d - 1), self.expr("int", sc, d - 1))
+                a, b = self.expr("int", sc, d - 1), self.expr("int", sc, d - 1)
+                if a == b: b = Bin("+", b, I(1))
+                return Bin(r.choice(["<", "<=", ">", ">=", "==", "!="]), a, b)
             if c < 0.6:
                 return Bin(r.choice(["and", "or"]), self.expr("bool", sc, d - 1), self.expr("bool", sc, d - 1))
             if c < 0.7: return Un("not", self.expr("bool", sc, d - 1))
             if c < 0.8: return Call("tb", self.expr("bool", sc, d - 1))
-            if c < 0.88: return Bin(r.choice(["==", "!="]), self.expr("string", sc, d - 1), self.expr("string", sc, d - 1))
+            if c < 0.88:
+                a, b = self.expr("string", sc, d - 1), self.expr("string", sc, d - 1)
+                if a == b: b = Bin("+", b, S("q"))
+                return Bin(r.choice(["==", "!="]), a, b)
             if c < 0.93:
                 rs = [v for v in sc.all() if v[1] == "Rec"]
                 if rs: return Field(V(r.choice(rs)[0]), "ok")
@@ -127,6 +142,7 @@ class Gen:
         if ty == "int": return I(self.small())
         if ty == "bool": return B(r.random() < 0.5)
         if ty == "string": return S(r.choice(["", "a", "hi", "x y", "nano", "Z9"]))
+        if ty == "Color": return Enum("Color." + r.choice(["Red", "Green", "Blue"]))
         if ty == "Point": return SLit("Point", [("x", self.expr("int", sc, d - 1)), ("y", self.expr("int", sc, d - 1))])
         if ty == "Rec": return SLit("Rec", [("tag", self.expr("string", sc, d - 1)), ("p", self.expr("Point", sc, d - 1)),
                                             ("ok", self.expr("bool", sc, d - 1))])
@@ -141,7 +157,7 @@ class Gen:
         raise ValueError(ty)
 
     # ------------------------------------------------------------- statements
-    TYPES = ["int", "int", "int", "bool", "string", "Point", "Rec", "Shape", "array<int>", "array<string>", "(int, string)"]
+    TYPES = ["int", "int", "int", "bool", "string", "Point", "Rec", "Shape", "array<int>", "array<string>", "(int, string)", "Color"]
 
     def stmts(self, sc, n, depth, inloop, ret):
         out = []
@@ -160,7 +176,18 @@ class Gen:
             if any(v[0] == name for v in sc.vars):
                 name = self.fresh()
             mut = r.random() < 0.6
-            s = Let(name, ty, self.expr(ty, sc, 2), mut)
+            old = [v for v in sc.all() if v[0] == name]
+            if old:
+                mut = old[0][2]
+            if ty == "int" and r.random() < 0.15:
+                init = I(self.small(big=True))
+            elif ty == "int" and r.random() < 0.1:
+                init = Call("str_length", self.expr("string", sc, 1))
+            else:
+                init = self.expr(ty, sc, 2)
+            if old and mentions(init, name):
+                name = self.fresh()
+            s = Let(name, ty, init, mut)
             sc.vars.append((name, ty, mut))
             return [s]
         if c < 0.36:
@@ -170,6 +197,12 @@ class Gen:
                 return [Set(v[0], self.expr(v[1], sc, 2))]
         if c < 0.52:
             ty = r.choice(["int", "int", "bool", "string"])
+            if ty == "int" and r.random() < 0.12:
+                return [Println(Call("str_length", self.expr("string", sc, 2)))]
+            cs = [v for v in sc.all() if v[1] == "Color"]
+            if cs and r.random() < 0.15:
+                c1 = r.choice(cs)[0]
+                return [Println(V(c1))] if r.random() < 0.5 else [Println(Bin("==", V(c1), Enum("Color." + r.choice(["Red", "Green", "Blue"]))))]
             return [Println(self.expr(ty, sc, 3))] if r.random() < 0.85 else [Print(self.expr(ty, sc, 2))]
         if c < 0.64 and depth > 0:
             th = self.stmts(Scope(sc), r.randint(1, 3), depth - 1, inloop, ret)
@@ -209,7 +242,7 @@ class Gen:
             if shp and r.random() < 0.7:
                 e = V(r.choice(shp)[0])
             else:
-                nm = self.fresh("u"); pre = [Let(nm, "Shape", self.lit("Shape", sc, 2))]; sc.vars.append((nm, "Shape", False)); e = V(nm)
+                nm = self.fresh("sh"); pre = [Let(nm, "Shape", self.lit("Shape", sc, 2))]; sc.vars.append((nm, "Shape", False)); e = V(nm)
             arms = []
             for vn, fs in self.unions[0][1]:
                 b = self.fresh("m")
